@@ -30,6 +30,69 @@ static FAULT_LEN: AtomicUsize = AtomicUsize::new(0);
 
 pub struct Checking;
 
+// Backing store. Default: the system allocator. With the crate feature `low32` (resource world,
+// C07): a bump arena mapped below 2 GiB, because generated Rust code passes the representation
+// pointer of an exported resource through an `i32` (correct on wasm32), so natively every
+// `Box`ed resource must live at an address that fits 32 bits. Arena memory is never reused.
+#[cfg(not(feature = "low32"))]
+unsafe fn sys_alloc(layout: Layout) -> *mut u8 {
+    unsafe { System.alloc(layout) }
+}
+#[cfg(not(feature = "low32"))]
+unsafe fn sys_dealloc(ptr: *mut u8, layout: Layout) {
+    unsafe { System.dealloc(ptr, layout) }
+}
+
+#[cfg(feature = "low32")]
+mod arena {
+    use std::sync::atomic::{AtomicUsize, Ordering::Relaxed};
+    pub const SIZE: usize = 256 << 20;
+    pub static BASE: AtomicUsize = AtomicUsize::new(0);
+    pub static NEXT: AtomicUsize = AtomicUsize::new(0);
+    unsafe extern "C" {
+        pub fn mmap(addr: *mut u8, len: usize, prot: i32, flags: i32, fd: i32, off: i64) -> *mut u8;
+    }
+    pub fn base() -> usize {
+        let b = BASE.load(Relaxed);
+        if b != 0 {
+            return b;
+        }
+        // PROT_READ|PROT_WRITE, MAP_PRIVATE|MAP_ANONYMOUS|MAP_32BIT|MAP_NORESERVE
+        let p = unsafe { mmap(std::ptr::null_mut(), SIZE, 3, 0x2 | 0x20 | 0x40 | 0x4000, -1, 0) } as usize;
+        if p == usize::MAX || p == 0 || p + SIZE > (1usize << 32) {
+            return 0;
+        }
+        BASE.store(p, Relaxed);
+        NEXT.store(p, Relaxed);
+        p
+    }
+}
+#[cfg(feature = "low32")]
+unsafe fn sys_alloc(layout: Layout) -> *mut u8 {
+    use std::sync::atomic::Ordering::Relaxed;
+    let b = arena::base();
+    if b == 0 {
+        return std::ptr::null_mut();
+    }
+    let a = layout.align().max(16);
+    let start = (arena::NEXT.load(Relaxed) + a - 1) & !(a - 1);
+    let end = start + layout.size();
+    if end > b + arena::SIZE {
+        return std::ptr::null_mut();
+    }
+    arena::NEXT.store(end, Relaxed);
+    start as *mut u8
+}
+#[cfg(feature = "low32")]
+unsafe fn sys_dealloc(ptr: *mut u8, layout: Layout) {
+    let b = arena::base();
+    let p = ptr as usize;
+    if b != 0 && p >= b && p < b + arena::SIZE {
+        return; // arena memory is never reused
+    }
+    unsafe { System.dealloc(ptr, layout) }
+}
+
 fn fault(msg: &str) {
     if FAULT_LEN.load(Relaxed) != 0 {
         return;
@@ -156,11 +219,11 @@ pub fn audit() {
 unsafe impl GlobalAlloc for Checking {
     unsafe fn alloc(&self, layout: Layout) -> *mut u8 {
         if !ENABLED.load(Relaxed) {
-            return unsafe { System.alloc(layout) };
+            return unsafe { sys_alloc(layout) };
         }
         let front = layout.align().max(RED);
         let total = front + layout.size() + RED;
-        let raw = unsafe { System.alloc(Layout::from_size_align_unchecked(total, layout.align().max(16))) };
+        let raw = unsafe { sys_alloc(Layout::from_size_align_unchecked(total, layout.align().max(16))) };
         if raw.is_null() {
             return raw;
         }
@@ -179,12 +242,12 @@ unsafe impl GlobalAlloc for Checking {
     unsafe fn dealloc(&self, ptr: *mut u8, layout: Layout) {
         if !ENABLED.load(Relaxed) {
             // allocated before tracking started (or tracking never started)
-            return unsafe { System.dealloc(ptr, layout) };
+            return unsafe { sys_dealloc(ptr, layout) };
         }
         match unsafe { find(ptr as usize) } {
             None => {
                 // Allocated before `enable()`: hand back to the system allocator.
-                unsafe { System.dealloc(ptr, layout) }
+                unsafe { sys_dealloc(ptr, layout) }
             }
             Some(s) => {
                 if !s.live {
@@ -250,7 +313,7 @@ pub fn purge() {
                 let front = s.align.max(RED);
                 let total = front + s.size + RED;
                 let raw = (s.ptr - front) as *mut u8;
-                System.dealloc(raw, Layout::from_size_align_unchecked(total, s.align.max(16)));
+                sys_dealloc(raw, Layout::from_size_align_unchecked(total, s.align.max(16)));
                 s.ptr = 1;
             }
         }
